@@ -6,7 +6,7 @@
    source flips a flag and the two full statements below no longer check. *)
 From Coq Require Import Reals ZArith QArith Qreals List Bool.
 From Coquelicot Require Import Coquelicot.
-From PT Require Import Dec Py IExpr ActEval ActEvalSound DecayTime C15Proofs.
+From PT Require Import Dec Py IExpr ActEval ActEvalSound DecayTime C15Proofs C15Exist.
 From PT Require C15Check.   (* the comparison rules the tie runs: kept in the build of this file *)
 From PT.Gen Require ActivationDat.
 Import ListNotations.
@@ -71,3 +71,26 @@ Print Assumptions C15_newton_left_monotone.
 Theorem C15_sign_decision_sound : forall e, sgn_means (sign_of e) (evalR ln2_env_R e).
 Proof. exact sign_of_sound. Qed.
 Print Assumptions C15_sign_decision_sound.
+
+(* the time the property speaks of exists and is unique: the summed activity is continuous and strictly
+   decreasing and falls below every positive level, so for every target in (0, A(0)) there is exactly one
+   time, and it is positive, at which the activity equals the target; when A(0) <= target the activity is
+   at or below the target at every t >= 0 (the case in which 0 is returned) *)
+Theorem C15_time_exists_unique :
+  (forall rem target, physical_rem rem -> 0 < target -> target < true_A rem 0 ->
+     exists t, (0 < t /\ true_A rem t = target) /\ forall t', true_A rem t' = target -> t' = t) /\
+  (forall rem target t, physical_rem rem -> true_A rem 0 <= target -> 0 <= t -> true_A rem t <= target).
+Proof. exact (conj spec_root_exists_unique below_stays_below). Qed.
+Print Assumptions C15_time_exists_unique.
+
+(* the summed activity never increases, and strictly decreases while it is positive *)
+Theorem C15_activity_decreasing : forall rem t1 t2, physical_rem rem -> t1 < t2 ->
+  true_A rem t2 <= true_A rem t1 /\ (0 < true_A rem t1 -> true_A rem t2 < true_A rem t1).
+Proof. exact true_A_decr. Qed.
+Print Assumptions C15_activity_decreasing.
+
+(* the premises of the existence statement are satisfiable: 2 uCi with a half-life of 1 h reaches 1 uCi at 1 h *)
+Theorem C15_time_exists_example :
+  physical_rem [(2, 1)] /\ 0 < 1 /\ 1 < true_A [(2, 1)] 0 /\ true_A [(2, 1)] 1 = 1.
+Proof. exact spec_root_exists_example. Qed.
+Print Assumptions C15_time_exists_example.
